@@ -112,6 +112,7 @@ func (c *Ctx) formatTable(fn *ssa.Function, perColumn string) (string, ssa.Instr
 		v     ssa.Value
 		fn    *ssa.Function           // function the leaf lives in
 		subst map[ssa.Value]ssa.Value // helper parameter -> caller argument
+		blk   *ssa.BasicBlock         // block in which this leaf is selected (a helper's return block), if known
 	}
 	var ls []leaf
 	var top []ssa.Value
@@ -127,13 +128,13 @@ func (c *Ctx) formatTable(fn *ssa.Function, perColumn string) (string, ssa.Instr
 					var inner []ssa.Value
 					leaves(r.Results[0], map[ssa.Value]bool{}, &inner)
 					for _, iv := range inner {
-						ls = append(ls, leaf{iv, h, sub})
+						ls = append(ls, leaf{iv, h, sub, r.Block()})
 					}
 				}
 				continue
 			}
 		}
-		ls = append(ls, leaf{l, fn, nil})
+		ls = append(ls, leaf{l, fn, nil, nil})
 	}
 	actual := func(lf leaf, v ssa.Value) ssa.Value {
 		if a, ok := lf.subst[v]; ok {
@@ -171,6 +172,20 @@ func (c *Ctx) formatTable(fn *ssa.Function, perColumn string) (string, ssa.Instr
 			ia, ok2 = u.X.(*ssa.IndexAddr)
 		}
 		if !ok || !ok2 {
+			if k, isK := core.ConstInt(l); isK {
+				// a constant format: under which condition on the given list?
+				guard := "unguarded"
+				for _, p := range lf.fn.Params {
+					if sl, isSl := p.Type().Underlying().(*types.Slice); !isSl || !core.IsNamed(sl.Elem(), pkWire, "FormatCode") {
+						continue
+					}
+					if lf.blk != nil && anyDominates(emptyEdges(lf.fn, p), lf.blk) {
+						guard = "when-empty"
+					}
+				}
+				desc = append(desc, sprintf("const%d/%s", k, guard))
+				continue
+			}
 			desc = append(desc, "other:"+l.String())
 			continue
 		}
@@ -226,23 +241,67 @@ func (c *Ctx) formatTable(fn *ssa.Function, perColumn string) (string, ssa.Instr
 			}
 		}
 		sort.Strings(sdesc)
-		src := "{" + strings.Join(sdesc, ",") + "}"
+		// normal form: one descriptor per source; a one-element literal selected when the given list is empty yields
+		// its constant whatever the index
+		idx := "[?]"
 		if k, ok := core.ConstInt(ia.Index); ok {
-			desc = append(desc, sprintf("%s[%d]", src, k))
-			continue
-		}
-		if colIdx != nil && core.StripConv(actual(lf, ia.Index)) == core.StripConv(colIdx) {
+			idx = sprintf("[%d]", k)
+		} else if colIdx != nil && core.StripConv(actual(lf, ia.Index)) == core.StripConv(colIdx) {
 			g := "unguarded"
 			if anyDominates(gtEdges(lf.fn, isLenOfVal(ia.X), isVal(ia.Index)), u.Block()) {
 				g = "if-len>index"
 			}
-			desc = append(desc, src+"[index]/"+g)
-			continue
+			idx = "[index]/" + g
 		}
-		desc = append(desc, src+"[?]")
+		for _, sd := range sdesc {
+			switch {
+			case sd == "given":
+				desc = append(desc, "given"+idx)
+			case strings.HasPrefix(sd, "literal[") && strings.HasSuffix(sd, "/when-empty"):
+				desc = append(desc, "const"+strings.TrimSuffix(strings.TrimPrefix(sd, "literal["), "]/when-empty")+"/when-empty")
+			default:
+				desc = append(desc, "{"+sd+"}"+idx)
+			}
+		}
 	}
 	sort.Strings(desc)
-	return strings.Join(desc, " | "), site
+	var ud []string
+	for i, d := range desc {
+		if i == 0 || d != desc[i-1] {
+			ud = append(ud, d)
+		}
+	}
+	return strings.Join(ud, " | "), site
+}
+
+// emptyEdges: the edges on which len(p) == 0 holds in fn.
+func emptyEdges(fn *ssa.Function, p ssa.Value) []edge {
+	var out []edge
+	for _, b := range fn.Blocks {
+		for _, in := range b.Instrs {
+			cmp, ok := in.(*ssa.BinOp)
+			if !ok || (cmp.Op != token.EQL && cmp.Op != token.NEQ) {
+				continue
+			}
+			lv, ok := core.IsLenOf(cmp.X)
+			if !ok || lv != p {
+				continue
+			}
+			if k, ok := core.ConstInt(cmp.Y); !ok || k != 0 {
+				continue
+			}
+			idx := 0
+			if cmp.Op == token.NEQ {
+				idx = 1
+			}
+			for _, u := range core.Referrers(cmp) {
+				if iff, ok := u.(*ssa.If); ok {
+					out = append(out, edge{iff.Block(), idx})
+				}
+			}
+		}
+	}
+	return out
 }
 
 func runC08(c *Ctx) {
@@ -451,6 +510,8 @@ func (c *Ctx) classifyFormat(fn *ssa.Function, v ssa.Value, kinds map[string]boo
 			ia, ok := x.X.(*ssa.IndexAddr)
 			if ok && c.isFormatSlice(fn, ia.X) && isInduction(ia.Index) && anyDominates(gtEdges(fn, isLenOfVal(ia.X), isVal(ia.Index)), x.Block()) {
 				kinds["positional"] = true
+			} else if k0, isK := core.ConstInt(indexOrNil(ia)); ok && isK && k0 == 0 && c.isFormatSlice(fn, ia.X) && anyDominates(lenEqEdges(fn, ia.X, 1), x.Block()) {
+				kinds["single-code"] = true // codes[0] under len(codes) == 1
 			} else {
 				kinds["unguarded-index"] = true
 			}
@@ -818,7 +879,7 @@ func (c *Ctx) c08ResultFormats() {
 		R.Analysed(fname(wr))
 		d1, s1 := c.formatTable(def, "Define")
 		d2, s2 := c.formatTable(wr, "Write")
-		const want = "{given,literal[0]/when-empty}[0] | {given,literal[0]/when-empty}[index]/if-len>index"
+		const want = "const0/when-empty | given[0] | given[index]/if-len>index"
 		where := c.atFn(def)
 		if s1 != nil {
 			where = c.at(s1)
@@ -889,4 +950,41 @@ func (c *Ctx) nullSentinels(rule string) {
 		}
 	}
 	R.Floor(rule, "length-prefixed value reads", n, 2)
+}
+
+func indexOrNil(ia *ssa.IndexAddr) ssa.Value {
+	if ia == nil {
+		return nil
+	}
+	return ia.Index
+}
+
+// lenEqEdges: the edges of fn on which len(x) == k holds.
+func lenEqEdges(fn *ssa.Function, x ssa.Value, k int64) []edge {
+	var out []edge
+	for _, b := range fn.Blocks {
+		for _, in := range b.Instrs {
+			cmp, ok := in.(*ssa.BinOp)
+			if !ok || (cmp.Op != token.EQL && cmp.Op != token.NEQ) {
+				continue
+			}
+			lv, ok := core.IsLenOf(cmp.X)
+			if !ok || lv != x {
+				continue
+			}
+			if kv, ok := core.ConstInt(cmp.Y); !ok || kv != k {
+				continue
+			}
+			idx := 0
+			if cmp.Op == token.NEQ {
+				idx = 1
+			}
+			for _, u := range core.Referrers(cmp) {
+				if iff, ok := u.(*ssa.If); ok {
+					out = append(out, edge{iff.Block(), idx})
+				}
+			}
+		}
+	}
+	return out
 }
